@@ -353,6 +353,9 @@ def _origin(e, func, name_expr):
                 names = [t] if isinstance(t, ast.Name) else (t.elts if isinstance(t, (ast.Tuple, ast.List)) else [])
                 if any(isinstance(x, ast.Name) and x.id == name for x in names):
                     v = n.value
+                    # `d.popitem()[1]` / `d.pop(k)[...]`: the element of the removed pair
+                    if isinstance(v, ast.Subscript) and isinstance(v.value, ast.Call) and e.receiver_objs(func, v.value, ("pop", "popitem")) & a.pending:
+                        v = v.value
                     if isinstance(v, ast.Call) and e.receiver_objs(func, v, ("pop", "popitem")) & a.pending:
                         res.append(("removed", v))
                     elif isinstance(v, ast.Subscript) and (e.objs(func, v.value) & a.pending):
